@@ -214,7 +214,8 @@ def check(ctx):
             ns, cs = _segments(names_t), _segments(cols_t)
             if ns and cs and ns[-1][0] == "many" and cs[-1][0] == "many":
                 a, b = ns[-1][1], cs[-1][1]
-                if a[0] == "comp" and b[0] == "comp" and a[3] == b[3] and a[5] == b[5] and ns[-1][2] != cs[-1][2]:
+                same_run = a[0] == "comp" and b[0] == "comp" and ((a[3] == b[3] and a[5] == b[5]) or (b[3] == a and not b[5]))
+                if same_run and ns[-1][2] != cs[-1][2]:
                     oke = False
                     bad_e = "the extra coordinate arrays are enumerated in reversed order relative to their names (a [::-1] meant for the two meshes reverses the extra columns too): with two or more extra coordinates each is labelled with another one's name"
         ctx.check("R2", "%s|extra-coordinates-appended|%s" % (GT, tag), oke, "each extra coordinate is appended together with its own name", bad=bad_e or "", fn=GT)
